@@ -95,6 +95,12 @@ def layout_case(c):
             pt_ = packed.AWQPackedTensor.pack(tv, **kw)
             un = pt_.unpack()
             lay[name] = "ok" if list(un.shape) == [N, K] and bool(torch.equal(un.contiguous(), t)) else "unpack(pack(t)) differs from t"
+            if lay[name] == "ok":
+                # a history on the packed object: detach() (twice) re-wraps the payload - the copy denotes the same codes
+                d_ = pt_.detach().detach()
+                un2 = d_.unpack()
+                if type(d_) is not type(pt_) or list(un2.shape) != [N, K] or not bool(torch.equal(un2.contiguous(), t)):
+                    lay[name] = "unpack() after detach() differs from t (the re-wrapped tensor does not denote the same codes)"
         except Exception as ex:  # noqa: BLE001
             lay[name] = "raised " + type(ex).__name__
     r["transposed_view"] = lay
